@@ -37,6 +37,64 @@ Proof.
   - exact (confirmed_frames_use_held_inputs predict Hi Hz).
 Qed.
 
+(* All peers agree, and agree with the truth.  Let [truth h] be the stream of inputs player h really submitted
+   (for a local player of some peer: what that peer registered, the input delay included).  What a session
+   holds of a player is a prefix of that stream - its own registered inputs for a local player, and for a
+   remote player the inputs delivered so far, which the link delivers in order and unaltered (props/C05.v,
+   C11.v, C14.v at their levels).  Under exactly that hypothesis, on ANY peer and after ANY run inside the
+   space, every simulated frame up to the last confirmed frame carries the true input of every player - hence
+   two peers' game states agree on every frame confirmed by both, and equal the serial replay of the truth. *)
+Definition held_prefix_of (truth : nat -> list Z) (gs : list ghost) : Prop :=
+  forall h hist low, nth_error gs h = Some (hist, low) -> exists rest, truth h = hist ++ rest.
+
+Theorem C01_confirmed_timeline_is_the_truth :
+  forall (predict : Z -> Z), (forall x, predict (predict x) = predict x) -> predict 0 = 0 ->
+  forall (sparse : bool) (ops : list sop) (n w d : Z) (kinds : list pkind) (eps : list (list Z)) (nspec : nat) (p : p2p) (outs : list (pout * apires)),
+  1 <= w -> 0 <= d -> w + d + 3 <= INPUT_QUEUE_LENGTH -> 0 < n -> Z.of_nat (length kinds) = n -> players_only kinds ->
+  srun_in predict (session_start n w sparse d kinds eps nspec) ops = Ok (p, outs) ->
+  exists g gs, exec_outs w (game0 w) outs = Some g /\ QSg sparse w d p gs /\ gframe g = s_current (ps_sync p) /\
+    forall truth, held_prefix_of truth gs ->
+      forall h f, (h < length gs)%nat -> 0 <= f <= s_last_confirmed (ps_sync p) -> f < s_current (ps_sync p) ->
+        gvalL (g_hist g) f h = hval (truth h) f.
+Proof.
+  intros predict Hi Hz sparse ops n w d kinds eps nspec p outs Hw Hd Hcap Hn Hlen Hpl H.
+  destruct (C01_confirmed_frames_use_held_inputs predict Hi Hz sparse ops n w d kinds eps nspec p outs Hw Hd Hcap Hn Hlen Hpl H)
+    as (g & gs & Ex & HQS & Hgf & Hval).
+  exists g, gs. split; [exact Ex|]. split; [exact HQS|]. split; [exact Hgf|].
+  intros truth Hpre h f Hh Hf Hfc.
+  destruct (nth_error gs h) as [[hist low]|] eqn:Eg; [|apply nth_error_None in Eg; lia].
+  destruct (Hval h hist low f Eg Hf Hfc) as (Hlt & Hv). destruct (Hpre h hist low Eg) as (rest & ->).
+  rewrite Hv. symmetry. apply (hval_app_old predict Hi). lia.
+Qed.
+
+Theorem C01_peers_agree :
+  forall (predict : Z -> Z), (forall x, predict (predict x) = predict x) -> predict 0 = 0 ->
+  forall (truth : nat -> list Z)
+         (sparseA sparseB : bool) (opsA opsB : list sop) (n wA wB dA dB : Z) (kindsA kindsB : list pkind)
+         (epsA epsB : list (list Z)) (nspecA nspecB : nat) (pA pB : p2p) (outsA outsB : list (pout * apires)),
+  1 <= wA -> 0 <= dA -> wA + dA + 3 <= INPUT_QUEUE_LENGTH -> 1 <= wB -> 0 <= dB -> wB + dB + 3 <= INPUT_QUEUE_LENGTH ->
+  0 < n -> Z.of_nat (length kindsA) = n -> Z.of_nat (length kindsB) = n -> players_only kindsA -> players_only kindsB ->
+  srun_in predict (session_start n wA sparseA dA kindsA epsA nspecA) opsA = Ok (pA, outsA) ->
+  srun_in predict (session_start n wB sparseB dB kindsB epsB nspecB) opsB = Ok (pB, outsB) ->
+  exists gA gB gsA gsB, exec_outs wA (game0 wA) outsA = Some gA /\ exec_outs wB (game0 wB) outsB = Some gB /\
+    QSg sparseA wA dA pA gsA /\ QSg sparseB wB dB pB gsB /\
+    (held_prefix_of truth gsA -> held_prefix_of truth gsB ->
+     forall h f, (h < length gsA)%nat -> (h < length gsB)%nat ->
+       0 <= f <= s_last_confirmed (ps_sync pA) -> f < s_current (ps_sync pA) ->
+       0 <= f <= s_last_confirmed (ps_sync pB) -> f < s_current (ps_sync pB) ->
+       gvalL (g_hist gA) f h = gvalL (g_hist gB) f h).
+Proof.
+  intros predict Hi Hz truth sparseA sparseB opsA opsB n wA wB dA dB kindsA kindsB epsA epsB nspecA nspecB pA pB outsA outsB
+         HwA HdA HcA HwB HdB HcB Hn HlA HlB HpA HpB HA HB.
+  destruct (C01_confirmed_timeline_is_the_truth predict Hi Hz sparseA opsA n wA dA kindsA epsA nspecA pA outsA HwA HdA HcA Hn HlA HpA HA)
+    as (gA & gsA & ExA & HQA & _ & HvA).
+  destruct (C01_confirmed_timeline_is_the_truth predict Hi Hz sparseB opsB n wB dB kindsB epsB nspecB pB outsB HwB HdB HcB Hn HlB HpB HB)
+    as (gB & gsB & ExB & HQB & _ & HvB).
+  exists gA, gB, gsA, gsB. split; [exact ExA|]. split; [exact ExB|]. split; [exact HQA|]. split; [exact HQB|].
+  intros HtA HtB h f HhA HhB HfA HcA' HfB HcB'.
+  rewrite (HvA truth HtA h f HhA HfA HcA'), (HvB truth HtB h f HhB HfB HcB'). reflexivity.
+Qed.
+
 (* Remote players in closed form: every confirmed frame f that has been simulated was LAST simulated,
    for every remote player pl, with the f-th input delivered for pl during the run ([remote_vals pl ops]:
    the values of the SRemote pl operations, in order) - nothing lost, duplicated, reordered, altered,
